@@ -745,6 +745,10 @@ impl<S: MetricSink> MetricSink for Counting<S> {
             }
             std::thread::yield_now();
         }
+        // a wrapper may refuse a metric on its own account: the buffered sink behind it never sees that metric
+        if m.contains("refuseme") {
+            return Err(io::Error::new(io::ErrorKind::InvalidData, "refused by the wrapper"));
+        }
         let r = self.inner.emit(m);
         if r.is_ok() {
             self.inner_ok.fetch_add(1, Ordering::SeqCst);
@@ -1131,6 +1135,31 @@ fn mode_delegate(j: &mut Judge) {
                     attempts.push(Attempt { bytes: Some(b), out: AOut::Ok });
                 }
                 steps.push(Step { op: Op::Flush, attempts, res });
+            } else if through_queue && r.chance(1, 8) {
+                // a metric the wrapper in front of the buffered sink refuses: the queue's thread sees an error, the
+                // buffered sink sees nothing - and has no reason to write
+                let key = format!("refuseme{}", k);
+                match panics::guard(|| client.gauge(&key, 1u64)) {
+                    Ok(Ok(_)) => {
+                        sent += 1;
+                        if !wait_done(sent) {
+                            j.rep.inconclusive("delegate: the queuing sink did not hand a metric over within 60 s");
+                            return;
+                        }
+                        // (the worker may do something right after the failed call: give it a moment)
+                        std::thread::sleep(std::time::Duration::from_millis(2));
+                        let mut attempts = Vec::new();
+                        while let Ok(b) = rx.try_recv() {
+                            attempts.push(Attempt { bytes: Some(b), out: AOut::Ok });
+                        }
+                        j.rep.obs("metrics_refused_by_a_wrapper_in_front_of_the_buffered_sink", 1);
+                        steps.push(Step { op: Op::Query, attempts, res: Res::OkUnit });
+                    }
+                    _ => {
+                        hist_ok = false;
+                        break;
+                    }
+                }
             } else {
                 let v = r.u64_any_width();
                 let klen = r.range(1, (cap / 2).max(2) as u64) as usize;
